@@ -189,7 +189,7 @@ def run_part(ctx):
         else:
             raise vlib.Inconclusive("tcpconn burst failed rc=%d: %s" % (rc, err[-1500:]))
     else:
-        rows = vlib.read_ndjson(of)
+        rows = [r for r in vlib.read_ndjson(of) if r.get("ev") == "Burst"]
         early = [r for r in rows if r["serveReturned"] and r["finishedAtReturn"] < r["accepted"]]
         never = [r for r in rows if not r["serveReturned"]]
         noeof = [r for r in rows if r["clientsSawEOF"] < r["n"]]
